@@ -66,6 +66,19 @@ Proof.
     rewrite E, IH by auto. f_equal. ring.
 Qed.
 
+(* the collected factor has modulus one when every carried phase and every diagonal entry met has *)
+Fixpoint unit_ok (k : nat) (ls : list ((asg -> mat2) * (asg -> C) * state)) (b : asg) : Prop :=
+  match ls with
+  | [] => True
+  | (f, d, _) :: rest => Cmod (d b) = 1%R /\ Cmod (mget (f b) (get b k) (get b k)) = 1%R /\ unit_ok (S k) rest b
+  end.
+Lemma pfac_unit ls : forall k b, unit_ok k ls b -> Cmod (pfac k ls b) = 1%R.
+Proof.
+  induction ls as [|[[f d] p] ls IH]; intros k b H; cbn [pfac].
+  - apply Cmod_1.
+  - destruct H as [H1 [H2 H3]]. rewrite !Cmod_mult, H1, H2, IH by auto. ring.
+Qed.
+
 (* the preserve structure *)
 Definition hi_match (k : nat) (b : asg) : bool := forallb (fun q => Bool.eqb (get b q) (tb q)) (seq (S k) (n - S k)).
 Definition fprime (k : nat) (mux : asg -> mat2) (gp : mat2) (b : asg) : mat2 :=
